@@ -519,7 +519,7 @@ fn wrap(gen_kind: &str, text: String, cfg: &(usize, u8, bool, u8)) -> Value {
 }
 
 pub fn run(ctx: &mut Ctx) {
-    ctx.rule = "Inputs: (a) byte strings, printable-ASCII strings and bracket soups; (b) token soups over the RSSL token table incl. extreme literals and directive words; (c) generated programs, valid and with 1-3 mutations (delete / duplicate / swap spans, insert tokens, extreme literals 99999999999999999999 / 4294967296 / 1e999 / 0x, unterminated comments / strings / conditionals, self-referential defines, truncation, up to 6 cast-like prefixes, bracket flips); (d) expressions wrapped in up to 12 parentheses / blocks with up to 6 ambiguous cast-like prefixes; (e) the repository's own .rssl/.hlsl inputs with the same mutations; (f') Pipeline definitions and StaticSampler initialisers with 0-8 properties per block from 30 known / unknown / misspelt names (repeated on purpose) and 40 values (entry points incl. declared-only, overloaded and namespaced functions, format and state strings, numbers, words, expressions, nested blocks to depth 2), missing semicolons; (f) a catalogue of unsupported or unusual constructs (packoffset, register space4, huge bind groups, bodiless entry points, duplicate pipeline names, ## on API defines, recursive includes ...) ; x {DirectX, Vulkan, Vulkan+buffer addresses, Metal, Metal bytecode} x {all, named, no-pipeline} x layout validation on/off x API defines. Oracle (in a supervised worker process): compile returns; an error renders to a non-empty string; no panic (caught, keyed by source file + normalised message), no process death (SIGSEGV = stack overflow, SIGABRT), CPU time <= 2 s per 4 KB (re-run alone before reporting; 60 s wall kill switch). Non-trivial = input of >= 24 bytes. Distinct = hash of the record.".into();
+    ctx.rule = "Inputs: (a) byte strings, printable-ASCII strings and bracket soups; (b) token soups over the RSSL token table incl. extreme literals and directive words; (c) generated programs, valid and with 1-3 mutations (delete / duplicate / swap spans, insert tokens, extreme literals 99999999999999999999 / 4294967296 / 1e999 / 0x, unterminated comments / strings / conditionals, self-referential defines, truncation, up to 6 cast-like prefixes, bracket flips); (d) expressions wrapped in up to 12 parentheses / blocks with up to 6 ambiguous cast-like prefixes; (e) the repository's own .rssl/.hlsl inputs with the same mutations; (f'') exhaustively, 47 type spellings (every resource / object type the front end knows, structs that are empty, recursive or hold arrays of structs, matrices, doubles, 64-bit integers, void, typedef'd arrays, nested resources) x 16 places a type can be written (extern / static / const / groupshared global, array, local, parameter, out parameter, return type, struct member of a global / of a structured buffer element / of a typed raw load and store, cbuffer member, typedef, template argument, sizeof / cast / comparison) x 5 targets x {all, no-pipeline} x layout validation; comparison chains `a < a < ... > (a)` of 2-41 operators; (f') Pipeline definitions and StaticSampler initialisers with 0-8 properties per block from 30 known / unknown / misspelt names (repeated on purpose) and 40 values (entry points incl. declared-only, overloaded and namespaced functions, format and state strings, numbers, words, expressions, nested blocks to depth 2), missing semicolons; (f) a catalogue of unsupported or unusual constructs (packoffset, register space4, huge bind groups, bodiless entry points, duplicate pipeline names, ## on API defines, recursive includes ...) ; x {DirectX, Vulkan, Vulkan+buffer addresses, Metal, Metal bytecode} x {all, named, no-pipeline} x layout validation on/off x API defines. Oracle (in a supervised worker process): compile returns; an error renders to a non-empty string; no panic (caught, keyed by source file + normalised message), no process death (SIGSEGV = stack overflow, SIGABRT), CPU time <= 2 s per 4 KB (re-run alone before reporting; 60 s wall kill switch). Non-trivial = input of >= 24 bytes. Distinct = hash of the record.".into();
     ctx.assumptions.push("the harness (and its workers) are built with debug assertions and overflow checks on, like the repository's own cargo test; a plain release build is not separately explored".into());
     ctx.assumptions.push("Metal bytecode is expected to end in MetalCompilerNotFound in this sandbox, which counts as a clean result".into());
     if !ctx.replay_tier(&check_record) {
@@ -570,6 +570,59 @@ pub fn run(ctx: &mut Ctx) {
     );
     // macro definitions with 0-3 parameters invoked with every kind of argument list: too few, too many, empty,
     // blank, spanning lines, comments, nested invocations, unbalanced
+    // ---- every type name the front end knows x every place a type can be written
+    {
+        const TYPES: &[(&str, &str)] = &[
+            ("", "Buffer<float4>"), ("", "RWBuffer<float4>"), ("", "ByteAddressBuffer"), ("", "RWByteAddressBuffer"), ("", "BufferAddress"), ("", "RWBufferAddress"), ("", "Texture2D<float4>"), ("", "Texture2D"),
+            ("", "Texture2DArray<float4>"), ("", "RWTexture2D<float4>"), ("", "RWTexture2DArray<float>"), ("", "TextureCube<float4>"), ("", "TextureCubeArray<float4>"), ("", "Texture3D<float4>"), ("", "RWTexture3D<float4>"),
+            ("struct ZS { float4 a; uint b; };\n", "ConstantBuffer<ZS>"), ("struct ZS { float4 a; uint b; };\n", "StructuredBuffer<ZS>"), ("struct ZS { float4 a; uint b; };\n", "RWStructuredBuffer<ZS>"),
+            ("struct ZEmpty {};\nstruct ZE { ZEmpty e; float v; };\n", "StructuredBuffer<ZE>"), ("struct ZEmpty {};\n", "StructuredBuffer<ZEmpty>"), ("struct ZEmpty {};\n", "ZEmpty"), ("struct ZEmpty {};\n", "ConstantBuffer<ZEmpty>"),
+            ("", "SamplerState"), ("", "SamplerComparisonState"), ("struct ZS { float4 a; uint b; };\n", "TriangleStream<ZS>"), ("", "RaytracingAccelerationStructure"), ("", "RayQuery<0>"), ("", "RayDesc"),
+            ("struct ZS { float4 a; uint b; };\n", "ZS"), ("struct ZRec { ZRec inner; };\n", "ZRec"), ("struct ZRec { ZRec inner; };\n", "StructuredBuffer<ZRec>"), ("struct ZA2 { int m; };\nstruct ZB2 { ZA2 a[2]; ZA2 b; };\n", "RWStructuredBuffer<ZB2>"),
+            ("", "float4x4"), ("", "double"), ("", "double3"), ("", "half"), ("", "uint64_t"), ("", "void"), ("enum ZEnum { ZA, ZB };\n", "ZEnum"), ("", "StructuredBuffer<StructuredBuffer<float> >"), ("", "Texture2D<Texture2D>"),
+            ("", "StructuredBuffer<double4>"), ("", "RWBuffer<float4x4>"), ("", "vector<float, 3>"), ("", "matrix<float, 2, 2>"), ("typedef float ZArr[3];\n", "ZArr"), ("typedef float ZArr[3];\n", "StructuredBuffer<ZArr>"),
+        ];
+        const PLACES: &[&str] = &[
+            "@ g;\n[numthreads(1, 1, 1)] void cs() { g; }\n",
+            "static @ g;\n[numthreads(1, 1, 1)] void cs() { g; }\n",
+            "const @ g;\n[numthreads(1, 1, 1)] void cs() { g; }\n",
+            "groupshared @ g;\n[numthreads(1, 1, 1)] void cs() { g; }\n",
+            "@ g[2];\n[numthreads(1, 1, 1)] void cs() { g[1]; }\n",
+            "[numthreads(1, 1, 1)] void cs() { @ v; v; }\n",
+            "void h(@ p) { p; }\n@ g;\n[numthreads(1, 1, 1)] void cs() { h(g); }\n",
+            "void h(out @ p) { }\n[numthreads(1, 1, 1)] void cs() { @ v; h(v); }\n",
+            "@ g;\n@ h() { return g; }\n[numthreads(1, 1, 1)] void cs() { h(); }\n",
+            "struct W { @ m; int n; };\nW g;\n[numthreads(1, 1, 1)] void cs() { g.n; }\n",
+            "struct W { @ m; int n; };\nRWStructuredBuffer<W> g;\n[numthreads(1, 1, 1)] void cs() { g[0].n = 1; }\n",
+            "struct W { @ m; int n; };\nRWByteAddressBuffer g;\n[numthreads(1, 1, 1)] void cs() { W w = g.Load<W>(0); g.Store<W>(16, w); }\n",
+            "cbuffer C { @ m; int n; };\n[numthreads(1, 1, 1)] void cs() { n; }\n",
+            "typedef @ TD;\nTD g;\n[numthreads(1, 1, 1)] void cs() { g; }\n",
+            "template<typename T> T id(T a) { return a; }\n@ g;\n[numthreads(1, 1, 1)] void cs() { id<@ >(g); id(g); }\n",
+            "@ g;\n[numthreads(1, 1, 1)] void cs() { uint s = sizeof(@); (@)g; g = g; bool b = g == g; }\n",
+        ];
+        let per = (TYPES.len() * PLACES.len()) as u64;
+        let make = |i: u64| {
+            let (def, ty) = TYPES[(i % per) as usize / PLACES.len()];
+            let place = PLACES[(i % per) as usize % PLACES.len()];
+            let v = i / per; // 5 targets x {all, nopipe} x validate
+            let text = format!("{}{}Pipeline P {{ ComputeShader = cs; }}\n", def, place.replace('@', ty));
+            wrap("type_places", text, &((v % 5) as usize, ((v / 5) % 2) as u8, (v / 10) % 2 == 1, 1))
+        };
+        ctx.run_enum("types_x_places", per * 20, true, make, |i| check_record(&make(i)));
+    }
+    // ---- chains of comparison operators around a parenthesised operand: `a < a < ... > (a)` can be read as nested
+    // template argument lists; the time to decide must not explode
+    {
+        let make = |i: u64| {
+            let n = 2 + (i % 40) as usize;
+            let shape = (i / 40) % 4;
+            let chain: String = (0..n).map(|k| if shape == 1 && k % 2 == 1 { "b < " } else { "a < " }).collect();
+            let tail = ["a > (a)", "a > (b)", "a >> (a)", "a > a"][shape as usize];
+            let text = format!("void f(int a, int b) {{\n    bool r = {}{};\n}}\n", chain, tail);
+            wrap("comparison_chain", text, &((i % 5) as usize, 1, false, 1))
+        };
+        ctx.run_enum("comparison_chains", 160, true, make, |i| check_record(&make(i)));
+    }
     ctx.run_prop(
         "property_blocks",
         6_000 * scale,
